@@ -87,6 +87,10 @@ def cases(tier, seed):
     from . import families
     for m in families.models():
         yield ('M', m)
+    from . import rt as _rt
+    for m in _rt.collision_models():
+        yield ('M', m)
+        yield ('M', (m[0], ()))
     for t in families.deep_trees():
         yield ('M', cm.on_carrier([t]))
     ksets = list(cm.k1()) + list(cm.k2_subset())
